@@ -101,4 +101,14 @@ def gen(tier, seed, count=None, maxn=8, maxlen=10, miri=False):
             hist = [first, first + rng.choice([1, 2, 4]), rng.choice([1, 2, first + 1]), first + 2]
             out.append("id=%d hist=%s pe=0 seed=%d reuse=0 dmode=0 damount=%d fpint=0 fpseed=1 spawnfail=1" % (
                 n + 100 + k, ",".join(map(str, hist)), rng.randrange(1 << 30), rng.choice([30, 120])))
+    if count is None and not miri:
+        # a long streak at one width in which every worker is done before the caller's own call ends (so the caller never has to be
+        # woken), then a broadcast of another width with a late worker: anything the pool learnt from the streak must not cost the
+        # caller its wake-up
+        for k in range(6 if tier == "quick" else 40):
+            w = rng.choice([1, 2, 2, 3])
+            w2 = rng.choice([x for x in (1, 2, 3, 4) if x != w])
+            streak = rng.choice([300, 1100, 1100, 2100, 4200])
+            out.append("id=%d hist=%d,%d,%d rep=%d pe=%d seed=%d reuse=%d dmode=1 damount=%d dmlast=2 fpint=0 fpseed=1 fplog=0" % (
+                n + 600 + k, w, w2, w, streak, rng.choice([0, 1]), rng.randrange(1 << 30), rng.choice([0, 1]), rng.choice([5, 30])))
     return out
